@@ -288,6 +288,8 @@ const MUTATIONS: &[&str] = &[
     // a variable whose declared type has fewer list levels than the position it is used at (list input coercion does not
     // apply to variables: AreTypesCompatible is false) — argument, input-object field, item of a list literal; in fragments too
     "var-fewer-list-levels", "var-fewer-list-levels", "var-fewer-list-levels",
+    // a field whose unwrapped type is a union (possibly a list of it) selected without a selection set
+    "union-without-selection", "union-without-selection",
 ];
 
 fn inject(rng: &mut Rng, s: &Schema, doc: &mut Doc, kind: &str) -> Option<Fault> {
@@ -545,6 +547,88 @@ fn inject(rng: &mut Rng, s: &Schema, doc: &mut Doc, kind: &str) -> Option<Fault>
                                        match &infield { Some(fl) => format!("input field {}.{} of argument {}", a.ty.named(), fl.name, a.name), None => format!("argument {}", a.name) },
                                        match place { 0 => "", 1 => ", in a fragment", _ => ", in a fragment spread by a fragment" }, faulty, n_ops),
                          site: Site::Doc })
+        }
+        "union-without-selection" => {
+            let is_union = |n: &str| matches!(s.get(n).map(|t| &t.kind), Some(Kind::Union { .. }));
+            // (a) an existing selection of a union-typed field loses its selection set
+            let existing = pick_field(rng, doc, &slots, |sl, sel| typed(sl) && match sel {
+                Sel::Field { name, sub: Some(_), .. } => field_def(s, sl.parent.as_ref().unwrap(), name).map_or(false, |f| is_union(f.ty.named())),
+                _ => false });
+            if let (Some((sl, k)), true) = (existing, rng.chance(1, 2)) {
+                let id = sl.id.clone();
+                let mut what = String::new();
+                if let Sel::Field { name, sub, .. } = &mut sels_at_mut(doc, &id)[k] {
+                    *sub = None;
+                    let fd = field_def(s, sl.parent.as_ref().unwrap(), name)?;
+                    what = format!("{}: {} (union) without selection set", name, fd.ty.render());
+                }
+                let what = format!("{} at {}", what, describe(doc, &id));
+                return Some(Fault { rule: "leaf_vs_composite", what, site: Site::Slot(id) });
+            }
+            // (b) a new selection of a union-typed field, without selection set, anywhere its parent type is selected
+            let cands: Vec<(&Slot, Field)> = slots.iter().filter(|sl| typed(sl)).flat_map(|sl| {
+                s.fields_of(sl.parent.as_ref().unwrap()).iter().filter(|f| is_union(f.ty.named())).map(move |f| (sl, f.clone()))
+            }).collect();
+            if cands.is_empty() { return None; }
+            let (sl, f) = rng.pick(&cands).clone();
+            let id = sl.id.clone();
+            let mut args = vec![];
+            for o in &f.args { if o.ty.is_nonnull() && o.default.is_none() { args.push((o.name.clone(), valid_lit(rng, s, &o.ty))); } }
+            let sels = sels_at_mut(doc, &id);
+            let at = rng.below(sels.len() + 1);
+            sels.insert(at, Sel::Field { alias: Some("un".into()), name: f.name.clone(), args, dirs: vec![], sub: None });
+            Some(Fault { rule: "leaf_vs_composite", what: format!("{}: {} (union) selected without selection set at {}", f.name, f.ty.render(), describe(doc, &id)), site: Site::Slot(id) })
+        }
+        "big-int-at-float-id" => {
+            // valid: an IntValue of any magnitude is a Float / ID literal (3.5.2, 3.5.5); only Int is 32-bit
+            fn big_lit(rng: &mut Rng, s: &Schema, ty: &Ty, depth: usize) -> Option<String> {
+                match ty {
+                    Ty::NonNull(t) => big_lit(rng, s, t, depth),
+                    Ty::List(t) => {
+                        let x = big_lit(rng, s, t, depth)?;
+                        Some(match rng.below(4) { 0 => x, 1 => { let y = big_lit(rng, s, t, depth)?; format!("[{}, {}]", x, y) } _ => format!("[{}]", x) })
+                    }
+                    Ty::Named(n) if n == "Float" || n == "ID" =>
+                        Some((*rng.pick(&["2147483648", "-2147483649", "1700000000000", "76561198000000000", "4294967296", "-9007199254740993", "99999999999999999999"])).to_string()),
+                    Ty::Named(n) => {
+                        if depth >= 3 { return None; }
+                        let ifs = match s.get(n) { Some(TypeDef { kind: Kind::Input { fields }, .. }) => fields.clone(), _ => return None };
+                        let mut order: Vec<usize> = (0..ifs.len()).collect();
+                        for i in (1..order.len()).rev() { let j = rng.below(i + 1); order.swap(i, j); }
+                        for i in order {
+                            if let Some(x) = big_lit(rng, s, &ifs[i].ty, depth + 1) {
+                                let mut parts = vec![format!("{}: {}", ifs[i].name, x)];
+                                for o in &ifs { if o.name != ifs[i].name && o.ty.is_nonnull() && o.default.is_none() { parts.push(format!("{}: {}", o.name, valid_lit(rng, s, &o.ty))); } }
+                                return Some(format!("{{{}}}", parts.join(", ")));
+                            }
+                        }
+                        None
+                    }
+                }
+            }
+            let mut cands: Vec<(&Slot, Field, Arg)> = vec![];
+            for sl in slots.iter().filter(|sl| typed(sl)) {
+                for f in s.fields_of(sl.parent.as_ref().unwrap()) {
+                    for a in &f.args {
+                        let n = a.ty.named();
+                        if n == "Float" || n == "ID" || matches!(s.get(n).map(|t| &t.kind), Some(Kind::Input { .. })) { cands.push((sl, f.clone(), a.clone())); }
+                    }
+                }
+            }
+            if cands.is_empty() { return None; }
+            for _try in 0..4 {
+                let (sl, f, a) = rng.pick(&cands).clone();
+                let v = match big_lit(rng, s, &a.ty, 0) { Some(v) => v, None => continue };
+                let id = sl.id.clone();
+                let mut args = vec![(a.name.clone(), v.clone())];
+                for o in &f.args { if o.name != a.name && o.ty.is_nonnull() && o.default.is_none() { args.push((o.name.clone(), valid_lit(rng, s, &o.ty))); } }
+                let sub = if s.is_composite(f.ty.named()) { Some(vec![Sel::Field { alias: None, name: "__typename".into(), args: vec![], dirs: vec![], sub: None }]) } else { None };
+                let sels = sels_at_mut(doc, &id);
+                let at = rng.below(sels.len() + 1);
+                sels.insert(at, Sel::Field { alias: Some("bi".into()), name: f.name.clone(), args, dirs: vec![], sub });
+                return Some(Fault { rule: "none (valid)", what: format!("{}({}: {}) with {}: {} at {}", f.name, a.name, v, a.name, a.ty.render(), describe(doc, &id)), site: Site::Slot(id) });
+            }
+            None
         }
         "int-out-of-range" => {
             // an Int argument (possibly inside a list) gets a literal outside the signed 32-bit range (/repo commit 556742c)
@@ -986,6 +1070,7 @@ fn c04_mode() -> bool { std::env::args().collect::<Vec<_>>().windows(2).any(|w| 
 fn corpus() -> Vec<(&'static str, &'static str, Vec<&'static str>, &'static str)> {
     const S1: &str = "scalar JSON\nenum E { A B }\ninput In { a: Int b: Int r: String! = \"d\" l: [In!] }\ninput Req { must: Int! opt: Int }\ninterface I { id: ID! self: I }\ninterface J implements I { id: ID! self: I j: Int }\ntype A implements I { id: ID! self: I a(x: Int! = 3, f: Float, ids: [ID!], e: E, i: In, q: Req, j: JSON): Int }\ntype B implements I & J { id: ID! self: I j: Int b: String }\ntype C { c: Int }\nunion U = A | C\nunion V = B | C\ntype Query { i: I j: J a: A u: U v: V n(x: Int!): Int }\ntype Subscription { s: Int t: Int }\ndirective @tag(name: String!) repeatable on FIELD | FRAGMENT_DEFINITION | FRAGMENT_SPREAD | INLINE_FRAGMENT | VARIABLE_DEFINITION | QUERY\ndirective @once(n: Int = 1) on FIELD | QUERY\n";
     const S2: &str = "type User { id: ID! name: String }\ninput Filter { ids: [ID!] matrix: [[Int]] }\ntype Query { me: User users(ids: [ID], filter: Filter): [User] }\ndirective @tag(names: [String!]) on FIELD\n";
+    const S3: &str = "type User { id: ID! name: String favorite: Fav }\ntype Post { id: ID! title: String }\nunion Fav = User | Post\ntype Event { id: ID! at: Float }\ninput EvFilter { since: Float owner: ID ids: [ID!] }\ntype Query { me: User first: Fav search(text: String): [Fav!] events(since: Float, until: Float! = 0, filter: EvFilter): [Event] event(id: ID!): Event }\ndirective @since(ts: Float) on FIELD\n";
     vec![
         // known defects
         (S1, "query Q { a { id } }\nfragment U on A { nonexistent }\n", vec![], "a fragment no operation spreads (not validated before commit c67e45e)"),
@@ -1032,6 +1117,18 @@ fn corpus() -> Vec<(&'static str, &'static str, Vec<&'static str>, &'static str)
         (S2, "query($n: String!) { me { ...F } }\nfragment F on User { name @tag(names: $n) }\n", vec![], "String! variable at directive argument [String!], in a fragment"),
         (S2, "query($n: Int) { users(filter: { matrix: [$n] }) { id } }\n", vec![], "Int variable as an item of a list literal at [[Int]] (item position [Int])"),
         (S2, "query($ids: [ID], $m: [[Int]], $ns: [String!], $r: [Int], $i: ID!) { users(ids: $ids, filter: {matrix: $m, ids: [$i]}) { id name @tag(names: $ns) } b: users(filter: {matrix: [$r]}) { id } }\n", vec![], "list variables at list positions of the same depth: valid"),
+        // a union-typed field needs a selection set like any composite field (5.3.3 Leaf Field Selections)
+        (S3, "query { first }\n", vec![], "union-typed field without selection set"),
+        (S3, "query { search(text: \"a\") }\n", vec![], "list-of-union-typed field without selection set"),
+        (S3, "query { me { id favorite } }\n", vec![], "nested union-typed field without selection set"),
+        (S3, "query { ...F }\nfragment F on Query { me { ... on User { favorite } } }\n", vec![], "union-typed field without selection set, in a fragment and an inline fragment"),
+        (S3, "query { me { id name favorite { __typename } } first { __typename } search(text: \"a\") { ... on Post { title } } }\n", vec![], "union-typed fields with selection sets: valid"),
+        // an IntValue of any magnitude is a valid Float / ID literal (only Int is a signed 32-bit integer)
+        (S3, "query { events(since: 1700000000000) { id at } }\n", vec![], "millisecond timestamp for a Float argument: valid"),
+        (S3, "query { events(since: 2147483648, until: -2147483649) { id } }\n", vec![], "2^31 and -2^31-1 for Float arguments (one non-null with default): valid"),
+        (S3, "query { event(id: 76561198000000000) { id } }\n", vec![], "64-bit numeric identifier for an ID argument: valid"),
+        (S3, "query { events(filter: { since: 1700000000000, owner: 9007199254740993, ids: 4294967296 }) { id } }\n", vec![], "large integers inside an input object (Float, ID, [ID!] by single-item coercion): valid"),
+        (S3, "query { events(filter: { ids: [4294967296, \"x\", 1] }) { id at @since(ts: 1700000000000) } }\n", vec![], "large integers as list items and for a Float directive argument: valid"),
     ]
 }
 
@@ -1101,6 +1198,8 @@ fn main() {
             let mut forms: Vec<&str> = vec![];
             if k % 2 == 0 && inject(&mut rng, &s, &mut d, "subscription-same-key-twice").is_some() { forms.push("subscription-same-key-twice"); *out.features.entry("subscription-same-key-twice".into()).or_insert(0) += 1; }
             if inject(&mut rng, &s, &mut d, "var-relax-at-default").is_some() { forms.push("var-relax-at-default"); *out.features.entry("var-relax-at-default".into()).or_insert(0) += 1; }
+            // an integer literal beyond the 32-bit range at a Float / ID position (argument, input-object field, list item)
+            if k % 4 != 3 && inject(&mut rng, &s, &mut d, "big-int-at-float-id").is_some() { forms.push("big-int-at-float-id"); *out.features.entry("big-int-at-float-id".into()).or_insert(0) += 1; }
             let text = d.render();
             run_case(&mut out, si, &sdl, &ts, &text, json!({"stream": "valid", "features": d.features, "valid_forms": forms, "classes": []}));
         }
